@@ -173,6 +173,23 @@ class KeyList(list):
     def isdisjoint(self, o): return set(self).isdisjoint(o)
 
 
+class LazyIter:
+    """an iterator that cannot be listed (itertools.count / cycle / repeat without a bound): only zip-like consumers take from it"""
+    def __init__(self, it, what):
+        self.it, self.what = it, what
+
+    def __iter__(self):
+        return self
+
+    def __next__(self):
+        return next(self.it)
+
+
+class ROMap(dict):
+    """types.MappingProxyType over a dict: reads like the dict, refuses writes"""
+    __hash__ = None
+
+
 class ExtModule:
     def __init__(self, name):
         self.name = name
@@ -431,9 +448,33 @@ class Interp:
         return v
 
     # ================================================================ calls
+    def _memo_key(self, v):
+        if isinstance(v, (str, int, float, bool, type(None), bytes)):
+            return ("v", type(v).__name__, v)
+        if isinstance(v, (tuple, frozenset)):
+            return ("t", type(v).__name__, tuple(self._memo_key(x) for x in v))
+        if isinstance(v, (list, dict, set)):
+            raise PyRaise("TypeError", None, f"unhashable type: '{type(v).__name__}'")
+        return ("id", id(v))
+
     def call_fn(self, fn: FuncInfo, args, kwargs, closure_env=None):
         if fn.qual in self.method_hooks:
             return self.method_hooks[fn.qual](self, list(args), dict(kwargs))
+        if fn.decos:
+            if fn.unknown_decorators:
+                raise AnalysisAbort(f"decorator(s) {fn.unknown_decorators} on {fn.qual} are not modelled")
+            if fn.is_memoised and not getattr(self, "_in_memo", None) == id(fn):
+                # functools.lru_cache / cache: one evaluation per distinct argument tuple; the SAME result object is handed out again
+                memo = self.__dict__.setdefault("_lru", {})
+                key = (id(fn), tuple(self._memo_key(a) for a in args), tuple(sorted((k, self._memo_key(v)) for k, v in kwargs.items())))
+                if key not in memo:
+                    prev = getattr(self, "_in_memo", None)
+                    self._in_memo = id(fn)
+                    try:
+                        memo[key] = (self.call_fn(fn, args, kwargs, closure_env), list(args))      # args kept alive: ids stay unique
+                    finally:
+                        self._in_memo = prev
+                return memo[key][0]
         self.depth += 1
         if self.depth > self.max_depth:
             self.depth -= 1
@@ -616,6 +657,8 @@ class Interp:
                 return lambda it, _v=v: _v.join(str(x) for x in self.iterate(it))
             if isinstance(v, dict) and name == "get":
                 return lambda k, d=None, _v=v: _v.get(k, d)
+            if isinstance(v, collections.Counter) and name in ("most_common", "elements", "total", "subtract", "update"):
+                return getattr(v, name)
             if isinstance(v, dict) and name == "keys":
                 return lambda _v=v: KeyList(_v.keys())
             if isinstance(v, dict) and name in ("items", "values"):
@@ -643,6 +686,10 @@ class Interp:
                 return lambda t, **k: v
             if name == "tolist":
                 return lambda: list(v.positions)
+            if name in ("all", "any") and isinstance(v, NP.IdxArr) and all(isinstance(x, bool) for x in v.positions):
+                return lambda axis=None, **k: (all if name == "all" else any)(v.positions)
+            if name in ("sum",) and isinstance(v, NP.IdxArr) and all(isinstance(x, bool) for x in v.positions):
+                return lambda axis=None, **k: TInt(sum(v.positions))
             raise AnalysisAbort(f"index array attribute {name}")
         if isinstance(v, PyModel):
             try:
@@ -670,6 +717,10 @@ class Interp:
             return (v.msg,)
         if isinstance(v, BT) and name == "__name__":
             return v.name
+        if isinstance(v, BT) and v.name == "dict" and name == "fromkeys":
+            return lambda keys, value=None: {k: value for k in self.iterate(keys)}
+        if isinstance(v, BT) and v.name == "str" and name == "join":
+            return lambda sep, it: sep.join(str(x) for x in self.iterate(it))
         if isinstance(v, Opaque):
             raise AnalysisAbort(f"attribute {name} of {v!r} is not modelled")
         raise AnalysisAbort(f"attribute {name} on {type(v).__name__} is not modelled (line {getattr(node, 'lineno', '?')})")
@@ -767,7 +818,11 @@ class Interp:
             if name == "truth":
                 return lambda a: self.truth(a)
             if name == "attrgetter":
-                return lambda *names: (lambda o: self.get_attr(o, names[0]) if len(names) == 1 else tuple(self.get_attr(o, n_) for n_ in names))
+                def dotted(o, path):
+                    for part in str(path).split("."):
+                        o = self.get_attr(o, part)
+                    return o
+                return lambda *names: (lambda o: dotted(o, names[0]) if len(names) == 1 else tuple(dotted(o, n_) for n_ in names))
             if name == "itemgetter":
                 return lambda *keys: (lambda o: self.get_item(o, keys[0], node) if len(keys) == 1 else tuple(self.get_item(o, k_, node) for k_ in keys))
             if name == "methodcaller":
@@ -786,7 +841,8 @@ class Interp:
                     acc = self.call(f, [acc, x], {})
                 return acc
             return reduce_
-        if m.name in ("math", "operator", "functools", "itertools", "string", "textwrap") and not (m.name == "itertools" and name == "product"):
+        if m.name in ("math", "operator", "functools", "itertools", "string", "textwrap") and not (m.name == "itertools" and name in ("product", "count", "cycle", "repeat")) \
+                and not (m.name == "functools" and name in ("lru_cache", "cache", "cached_property", "partial", "wraps")):
             import math as _m, operator as _o, functools as _f, itertools as _i, string as _s, textwrap as _t
             host = getattr({"math": _m, "operator": _o, "functools": _f, "itertools": _i, "string": _s, "textwrap": _t}[m.name], name, None)
             if host is None:
@@ -819,6 +875,16 @@ class Interp:
         if m.name in ("re", "unicodedata"):        # pure standard-library text functions: evaluated as they are
             import re as _re, unicodedata as _ud
             return getattr({"re": _re, "unicodedata": _ud}[m.name], name)
+        if m.name == "itertools" and name in ("count", "cycle", "repeat"):
+            import itertools as _it2
+
+            def lazy(*a, _n=name):
+                if _n == "repeat" and len(a) == 2:
+                    return [a[0]] * int(a[1])
+                if _n == "cycle":
+                    return LazyIter(_it2.cycle(self.iterate(a[0])), "itertools.cycle")
+                return LazyIter(getattr(_it2, _n)(*a), f"itertools.{_n}")
+            return lazy
         if m.name == "itertools" and name == "product":
             import itertools as _it
             return lambda *its, repeat=1: list(_it.product(*[self.iterate(i) for i in its], repeat=repeat))
@@ -909,7 +975,9 @@ class Interp:
                 return NP.like(a, fv, "np." + _n)
             return like
         if name in ("array", "asarray", "asanyarray", "ascontiguousarray"):
-            def array(x, dtype=None, copy=None, _n=name):
+            def array(x, dtype=None, copy=None, subok=False, order=None, ndmin=0, like=None, _n=name):
+                if ndmin or like is not None:
+                    raise AnalysisAbort(f"np.{_n} with ndmin / like")
                 if isinstance(x, AArr):
                     if _n == "array" and copy is not False:
                         return NP.copy_arr(x, "np.array")
@@ -922,10 +990,30 @@ class Interp:
                     return AArr((tuple(x),), ("in", "items", ((NP.universe(x[0]), ("v", NP.vkey(x))),)), NP.Buf("np.array(items)"))
                 if isinstance(x, (list, tuple)) and all(isinstance(p, int) and not isinstance(p, bool) for p in x):
                     return NP.IdxArr(x)       # an integer array of positions (index array)
+                if isinstance(x, (list, tuple)) and x and all(isinstance(p, bool) for p in x):
+                    return NP.IdxArr(x)       # a boolean vector of item tests
                 if isinstance(x, NP.IdxArr):
                     return x
                 raise AnalysisAbort(f"np.{_n} of {I.tname(x)}")
             return array
+        if name == "copyto":
+            def copyto(dst, src, casting=None, where=True):
+                if where is not True or not isinstance(dst, AArr):
+                    raise AnalysisAbort("np.copyto with where= / a non-array destination")
+                NP.setitem(dst, Ellipsis, src)
+            return copyto
+        if name == "arange":
+            def arange(*a, dtype=None):
+                t = any(isinstance(x, TInt) for x in a)
+                return NP.IdxArr([TInt(i) if t else i for i in range(*[int(x) for x in a])])
+            return arange
+        if name == "fromiter":
+            def fromiter(it, dtype=None, count=-1):
+                vals = I.iterate(it)
+                if all(isinstance(p, (int, bool)) for p in vals):
+                    return NP.IdxArr(vals)
+                raise AnalysisAbort("np.fromiter of other than integers / booleans")
+            return fromiter
         if name == "copy":
             return lambda a: NP.copy_arr(a, "np.copy")
         if name == "tile":
@@ -1066,7 +1154,22 @@ class Interp:
         if name == "enumerate":
             return lambda it, start=0: [(i, x) for i, x in enumerate(I.iterate(it), start)]
         if name == "zip":
-            return lambda *its, strict=False: list(zip(*[I.iterate(i) for i in its]))
+            def zip_(*its, strict=False):
+                fin = [I.iterate(i) for i in its if not isinstance(i, LazyIter)]
+                if len(fin) == len(its):
+                    return list(zip(*fin))
+                if not fin:
+                    raise AnalysisAbort("zip of unbounded iterators only")
+                n = min(len(f) for f in fin)
+                cols, k = [], 0
+                for i in its:
+                    if isinstance(i, LazyIter):
+                        cols.append([next(i) for _ in range(n)])
+                    else:
+                        cols.append(fin[k][:n])
+                        k += 1
+                return list(zip(*cols))
+            return zip_
         if name == "sum":
             def summ(it, start=0):
                 tot = start
@@ -1273,6 +1376,8 @@ class Interp:
         return str(v)
 
     def iterate(self, v):
+        if isinstance(v, LazyIter):
+            raise AnalysisAbort(f"{v.what} consumed without a bound")
         if isinstance(v, NP.IdxArr):
             return list(v.positions)
         if isinstance(v, PyModel):
@@ -1404,6 +1509,8 @@ class Interp:
             self.call_fn(r[1], [o, k, val], {})
         elif isinstance(o, AArr):
             NP.setitem(o, k, val)
+        elif isinstance(o, ROMap):
+            raise PyRaise("TypeError", node, "'mappingproxy' object does not support item assignment")
         elif isinstance(o, (list, dict)):
             try:
                 o[k] = val
@@ -1630,6 +1737,10 @@ class Interp:
             "typing.Callable": CALLABLE, "collections.abc.Callable": CALLABLE,
             "collections.defaultdict": lambda f=None: collections.defaultdict((lambda: f.ctor()) if isinstance(f, BT) else f),
             "typing.TYPE_CHECKING": False,
+            "types.MappingProxyType": lambda d: ROMap(d),
+            "collections.Counter": lambda it=(): collections.Counter(self.iterate(it) if not isinstance(it, dict) else it),
+            "collections.OrderedDict": lambda *a, **k: dict(*[self.iterate(x) if not isinstance(x, dict) else x for x in a], **k),
+            "functools.partial": lambda f, *a, **k: (lambda *a2, **k2: self.call(f, list(a) + list(a2), {**k, **k2})),
             "abc.abstractmethod": lambda f: f,
         }
         if dotted in known:
